@@ -17,6 +17,12 @@ from collections import Counter
 from .loop import SimLoop
 
 
+
+def _check_sun_path(path):
+    """bind()/connect() of an AF_UNIX socket: the address as GIVEN (relative paths stay relative) must fit sun_path."""
+    if len(os.fsencode(path)) > 107:
+        raise OSError("AF_UNIX path too long")
+
 class FakeSocket:
     _next_fd = 1000
 
@@ -421,7 +427,8 @@ class NetLoop(SimLoop):
         if ssl is not None or sock is not None:
             raise NotImplementedError("SimNet: ssl/sock not simulated")
         path = os.fspath(path)
-        key = ("unix", path)
+        _check_sun_path(path)
+        key = ("unix", os.path.abspath(path))
         if key in self.net.listeners:
             raise OSError(errno.EADDRINUSE, f"Address {path!r} is already in use")
         # like asyncio's create_unix_server: a stale *socket* file is removed first; anything else is in the way
@@ -469,12 +476,13 @@ class NetLoop(SimLoop):
     async def create_unix_connection(self, protocol_factory, path=None, *, ssl=None, sock=None,
                                      server_hostname=None, ssl_handshake_timeout=None, ssl_shutdown_timeout=None):
         path = os.fspath(path)
+        _check_sun_path(path)
         if not os.path.exists(path):
             self.net.stats["fault:connect_refused"] += 1
             waiter = self.create_future()
             self.call_later(self.net.latency(), waiter.set_result, None)
             await waiter
             raise FileNotFoundError(errno.ENOENT, "No such file or directory", path)
-        key = ("unix", path)
+        key = ("unix", os.path.abspath(path))
         exc = ConnectionRefusedError(errno.ECONNREFUSED, "Connection refused")
         return await self._connect(key, protocol_factory, socket.AF_UNIX, path, exc)
